@@ -326,6 +326,10 @@ class DropOne(Dense_):
         self._ind = ind
 
     def __getitem__(self, key: int):
+        if key < 0:
+            #count from the end of the kept values so that the dropped value is never returned
+            key += len(self)
+            if key < 0: raise IndexError('index out of range')
         if key >= self._ind: key += 1
         return self._row[key]
 
